@@ -12,10 +12,11 @@ import (
 )
 
 // Modes:
-//   gen  -seed N -programs P -len L -kind mem|disk -profile kv|feeds|multi -ops FILE -out FILE -stats FILE
-//        generate programs, run them on the implementation, write the concrete op lines and the result lines
-//   run  -ops FILE -out FILE
-//        replay concrete op lines on the implementation
+//
+//	gen  -seed N -programs P -len L -kind mem|disk -profile kv|feeds|multi -ops FILE -out FILE -stats FILE
+//	     generate programs, run them on the implementation, write the concrete op lines and the result lines
+//	run  -ops FILE -out FILE
+//	     replay concrete op lines on the implementation
 func main() {
 	if len(os.Args) < 2 {
 		fmt.Fprintln(os.Stderr, "usage: rosmar-harness gen|run|... [flags]")
@@ -53,7 +54,7 @@ func main() {
 	}
 }
 
-var extraModes = map[string]func(args []string) int{}
+var extraModes = map[string]func(args []string) int{"realtime": realtimeMode}
 
 func runGen(seed uint64, programs, length int, kind, profile, opsPath, outPath, statsPath string) error {
 	opsF, err := os.Create(opsPath)
